@@ -50,6 +50,16 @@ def disciplined (guard : Nat → Nat) : Nat → TCfg → Bool
     | .seek x _ :: _ => c.held.contains (guard x) && disciplined guard n (c.advance guard)
     | .use x :: _ => c.held.contains (guard x) && (pendGet c.pend x).isSome && disciplined guard n (c.advance guard)
 
+/-- **ordered acquisition**, checked on a thread's program alone: a lock is only taken while every lock already held has a
+    smaller rank, and the program ends with nothing held -/
+def ordered (guard : Nat → Nat) (rank : Nat → Nat) : Nat → TCfg → Bool
+  | 0, c => c.todo.isEmpty && c.held.isEmpty
+  | n + 1, c =>
+    match c.todo with
+    | [] => c.held.isEmpty
+    | .acq l :: _ => c.held.all (fun h => decide (rank h < rank l)) && ordered guard rank n (c.advance guard)
+    | _ :: _ => ordered guard rank n (c.advance guard)
+
 /-- global state: object positions, lock owners, the threads -/
 structure St where
   pos : Nat → Nat
